@@ -27,6 +27,11 @@ CLAIMED["C12"] = dict(
    note="float-as-real; orientedBoxITF.baseBox assumed pure/non-nil; restoreBoxAttributes unverified (interface call, havoc)",
    ref="DESIGN.md §4 C12")
 
+CLAIMED["C06"] = dict(
+   text="css/parser tokenizer.go and parser.go are under contract (55 functions, ~1400 obligations): every index/slice/nil/type-assertion is safe for all byte inputs, every loop and the recursion of consumeValueList terminate (measure len-pos: each step consumes >= 1 byte, which needs the proved NUL-free invariant established by Tokenize), the ident-start / name-start predicates equal the CSS Syntax 3 definitions, and error recovery is exact: a nested value list ends at EOF or just after its own closing delimiter, consumeRemnants / declarations / at-rules / qualified rules stop just after the FIRST top-level ';' or {} block (quantified over the skipped tokens). Token VALUES (escape decoding, numbers, string building) and colors.go are NOT decided.",
+   note="assumed extern contracts: utf8.DecodeRune, bytes.HasPrefix/Index/LastIndexByte/Count/ReplaceAll, strings.ContainsRune, strings.Builder, strconv, the two anchored regexps of the package; Token.Kind/Pos assumed pure; machine-int-as-math",
+   ref="DESIGN.md §4 C06")
+
 NOT_YET = {}
 
 NA = {
